@@ -108,18 +108,35 @@ type c01Oracle struct {
 	CKeys [][2]string `json:"ckeys"` // header-condition key -> canonical form
 }
 
-type c01In struct {
-	Server c01Server  `json:"server"`
-	Reqs   []c01Req   `json:"reqs"`
-	Seq    []int      `json:"seq,omitempty"` // C12: indices into Reqs
-	Oracle *c01Oracle `json:"oracle"`        // recomputed on every run
+// c01Backend is one MuxMapper entry: a pipeline name and the identity
+// (generation) of the handler object currently registered under it.
+type c01Backend struct {
+	Name string `json:"name"`
+	Gen  int    `json:"gen"`
 }
+
+type c01In struct {
+	Server c01Server `json:"server"`
+	// Alts are further specs used as reload targets (C12): reload index 0 is
+	// Server itself, index k >= 1 is Alts[k-1].
+	Alts []c01Server `json:"alts,omitempty"`
+	Reqs []c01Req    `json:"reqs"`
+	// Mappers[i] is the MuxMapper content at the time of request i (C01); a
+	// missing entry means Server.Backends, all of generation 1.
+	Mappers [][]c01Backend `json:"mappers,omitempty"`
+	// Seq (C12): v >= 0 is request Reqs[v]; v < 0 reloads both twins with spec -(v+1).
+	Seq    []int      `json:"seq,omitempty"`
+	Oracle *c01Oracle `json:"oracle"` // recomputed on every run
+}
+
+func (in *c01In) servers() []c01Server { return append([]c01Server{in.Server}, in.Alts...) }
 
 type c01Out struct {
 	Status  int    `json:"status"`
 	Backend string `json:"backend"` // "" = no handler invoked
 	Path    string `json:"path"`
 	Panic   bool   `json:"panic"`
+	Gen     int    `json:"gen"` // identity of the handler invoked (0 = none)
 }
 
 type c01Obs struct {
@@ -127,9 +144,11 @@ type c01Obs struct {
 	Outs     []c01Out `json:"outs"`
 }
 
-// filter ids shared with the encoder (plugins/C01.py): server 0, rule i -> 1000*(i+1), path j of rule i -> 1000*(i+1)+j+1
-func c01RuleFID(i int) int    { return 1000 * (i + 1) }
-func c01PathFID(i, j int) int { return 1000*(i+1) + j + 1 }
+// filter ids shared with the encoder (plugins/C01.py), s = index of the spec (0 = Server, k = Alts[k-1]):
+// server s*1000000, rule i -> s*1000000 + 1000*(i+1), path j of rule i -> s*1000000 + 1000*(i+1)+j+1
+func c01ServerFID(s int) int     { return 1000000 * s }
+func c01RuleFID(s, i int) int    { return 1000000*s + 1000*(i+1) }
+func c01PathFID(s, i, j int) int { return 1000000*s + 1000*(i+1) + j + 1 }
 
 func c01IPSpec(f *c01Filter) *ipfilter.Spec {
 	if f == nil {
@@ -159,11 +178,15 @@ func c01Spec(s c01Server, cacheSize int) *Spec {
 type c01Rec struct {
 	backend string
 	path    string
+	gen     int
 	called  bool
 }
 
+// c01Handler is the handler object registered under a name; gen is its identity
+// (a replaced pipeline is a new object with a new generation).
 type c01Handler struct {
 	name string
+	gen  int
 	rec  *c01Rec
 }
 
@@ -171,6 +194,7 @@ func (h *c01Handler) Handle(ctx *context.Context) string {
 	req := ctx.GetRequest(context.DefaultNamespace).(*httpprot.Request)
 	h.rec.called = true
 	h.rec.backend = h.name
+	h.rec.gen = h.gen
 	h.rec.path = req.Path()
 	resp, _ := httpprot.NewResponse(nil)
 	resp.SetStatusCode(http.StatusOK)
@@ -178,34 +202,54 @@ func (h *c01Handler) Handle(ctx *context.Context) string {
 	return ""
 }
 
+// c01Mapper is a live MuxMapper: its content can change between requests.
 type c01Mapper struct {
-	known map[string]bool
+	known map[string]int // name -> generation of the registered handler
 	rec   *c01Rec
 }
 
 func (m *c01Mapper) GetHandler(name string) (context.Handler, bool) {
-	if !m.known[name] {
+	gen := m.known[name]
+	if gen == 0 {
 		return nil, false
 	}
-	return &c01Handler{name: name, rec: m.rec}, true
+	return &c01Handler{name: name, gen: gen, rec: m.rec}, true
+}
+
+func (m *c01Mapper) set(bs []c01Backend) {
+	m.known = map[string]int{}
+	for _, b := range bs {
+		if _, dup := m.known[b.Name]; !dup { // first entry wins (as alookup in the model)
+			m.known[b.Name] = b.Gen
+		}
+	}
+}
+
+func c01DefaultMapper(s c01Server) []c01Backend {
+	out := []c01Backend{}
+	for _, b := range s.Backends {
+		out = append(out, c01Backend{Name: b, Gen: 1})
+	}
+	return out
 }
 
 type c01Mux struct {
-	m   *mux
-	rec *c01Rec
+	m      *mux
+	rec    *c01Rec
+	mapper *c01Mapper
 }
 
 var c01LoggerReady bool
 
-// c01Build returns nil when the real validation rejects the spec.
-func c01Build(s c01Server, cacheSize int) (cm *c01Mux) {
+// c01SuperSpec returns nil when the real validation rejects the spec.
+func c01SuperSpec(s c01Server, cacheSize int) (sp *supervisor.Spec) {
 	if !c01LoggerReady {
 		logger.InitNop()
 		c01LoggerReady = true
 	}
 	defer func() {
 		if r := recover(); r != nil {
-			cm = nil
+			sp = nil
 		}
 	}()
 	yamlSpec := "kind: HTTPServer\nname: verif\n" + string(yamltool.Marshal(c01Spec(s, cacheSize)))
@@ -213,15 +257,31 @@ func c01Build(s c01Server, cacheSize int) (cm *c01Mux) {
 	if err != nil || superSpec == nil {
 		return nil
 	}
-	rec := &c01Rec{}
-	known := map[string]bool{}
-	for _, b := range s.Backends {
-		known[b] = true
+	return superSpec
+}
+
+// c01Build returns nil when the real validation rejects the spec.
+func c01Build(s c01Server, cacheSize int) (cm *c01Mux) {
+	superSpec := c01SuperSpec(s, cacheSize)
+	if superSpec == nil {
+		return nil
 	}
-	mapper := &c01Mapper{known: known, rec: rec}
+	defer func() {
+		if r := recover(); r != nil {
+			cm = nil
+		}
+	}()
+	rec := &c01Rec{}
+	mapper := &c01Mapper{rec: rec}
+	mapper.set(c01DefaultMapper(s))
 	m := newMux(httpstat.New(), httpstat.NewTopN(10), mapper)
 	m.reload(superSpec, mapper)
-	return &c01Mux{m: m, rec: rec}
+	return &c01Mux{m: m, rec: rec, mapper: mapper}
+}
+
+// reload installs a new generation built from an already validated spec (mux.reload).
+func (cm *c01Mux) reload(superSpec *supervisor.Spec) {
+	cm.m.reload(superSpec, cm.mapper)
 }
 
 func c01StdReq(r c01Req) *http.Request {
@@ -246,6 +306,7 @@ func (cm *c01Mux) serve(r c01Req) (o c01Out) {
 	if cm.rec.called {
 		o.Backend = cm.rec.backend
 		o.Path = cm.rec.path
+		o.Gen = cm.rec.gen
 	}
 	return
 }
@@ -339,16 +400,18 @@ func c01Oracles(in *c01In) *c01Oracle {
 			filters = append(filters, filt{id, ipfilter.New(c01IPSpec(f))})
 		}
 	}
-	addF(0, in.Server.Filter)
 	seenCK := map[string]bool{}
-	for i, r := range in.Server.Rules {
-		addF(c01RuleFID(i), r.Filter)
-		for j, p := range r.Paths {
-			addF(c01PathFID(i, j), p.Filter)
-			for _, h := range p.Headers {
-				if !seenCK[h.Key] {
-					seenCK[h.Key] = true
-					o.CKeys = append(o.CKeys, [2]string{h.Key, textproto.CanonicalMIMEHeaderKey(h.Key)})
+	for si, sv := range in.servers() {
+		addF(c01ServerFID(si), sv.Filter)
+		for i, r := range sv.Rules {
+			addF(c01RuleFID(si, i), r.Filter)
+			for j, p := range r.Paths {
+				addF(c01PathFID(si, i, j), p.Filter)
+				for _, h := range p.Headers {
+					if !seenCK[h.Key] {
+						seenCK[h.Key] = true
+						o.CKeys = append(o.CKeys, [2]string{h.Key, textproto.CanonicalMIMEHeaderKey(h.Key)})
+					}
 				}
 			}
 		}
@@ -373,13 +436,15 @@ func c01Oracles(in *c01In) *c01Oracle {
 				o.IP = append(o.IP, c01IPA{F: f.id, IP: ro.RealIP, A: f.f.Allow(ro.RealIP)})
 			}
 		}
-		for _, r := range in.Server.Rules {
-			addRe(r.HostRegexp, ro.Hostname)
-			for _, p := range r.Paths {
-				addRe(p.Regexp, rq.Path)
-				addRep(p.Regexp, rq.Path, p.Rewrite)
-				for _, h := range p.Headers {
-					addRe(h.Regexp, std.Header.Get(h.Key))
+		for _, sv := range in.servers() {
+			for _, r := range sv.Rules {
+				addRe(r.HostRegexp, ro.Hostname)
+				for _, p := range r.Paths {
+					addRe(p.Regexp, rq.Path)
+					addRep(p.Regexp, rq.Path, p.Rewrite)
+					for _, h := range p.Headers {
+						addRe(h.Regexp, std.Header.Get(h.Key))
+					}
 				}
 			}
 		}
@@ -387,14 +452,22 @@ func c01Oracles(in *c01In) *c01Oracle {
 	return o
 }
 
+// c01Run serves all requests on ONE mux instance (no reload in between); before
+// request i the MuxMapper content is set to Mappers[i].
 func c01Run(in *c01In) c01Obs {
 	in.Oracle = c01Oracles(in)
+	in.Alts = nil
+	for len(in.Mappers) < len(in.Reqs) {
+		in.Mappers = append(in.Mappers, c01DefaultMapper(in.Server))
+	}
+	in.Mappers = in.Mappers[:len(in.Reqs)]
 	cm := c01Build(in.Server, 0)
 	if cm == nil {
 		return c01Obs{Accepted: false, Outs: []c01Out{}}
 	}
 	obs := c01Obs{Accepted: true, Outs: []c01Out{}}
-	for _, r := range in.Reqs {
+	for i, r := range in.Reqs {
+		cm.mapper.set(in.Mappers[i])
 		obs.Outs = append(obs.Outs, cm.serve(r))
 	}
 	return obs
@@ -639,10 +712,51 @@ func c01GenCase(r *vfRand, adv bool) *c01In {
 	}
 	in := &c01In{Server: c01GenServer(r, filtNum, adv)}
 	n := r.Range(4, 14)
+	hist := r.Chance(1, 2) || adv // history with a changing MuxMapper
 	for i := 0; i < n; i++ {
+		if hist && i > 0 && r.Chance(1, 2) { // the same request again, later in the history
+			in.Reqs = append(in.Reqs, in.Reqs[r.Intn(i)])
+			continue
+		}
 		in.Reqs = append(in.Reqs, c01GenReq(r, in.Server, filtNum > 0))
 	}
+	if hist {
+		in.Mappers = c01GenMappers(r, in.Server, n)
+	}
 	return in
+}
+
+// c01GenMappers: pipelines are deleted, re-created and replaced (new handler
+// identity) between requests: present -> absent -> present with another identity.
+func c01GenMappers(r *vfRand, s c01Server, n int) [][]c01Backend {
+	cur := c01DefaultMapper(s)
+	next := 2
+	out := [][]c01Backend{}
+	for i := 0; i < n; i++ {
+		if i > 0 && r.Chance(1, 2) {
+			name := c01Pick(r, append([]string{"D"}, s.Backends...))
+			idx := -1
+			for k, b := range cur {
+				if b.Name == name {
+					idx = k
+				}
+			}
+			upd := append([]c01Backend{}, cur...)
+			switch {
+			case idx < 0: // created
+				upd = append(upd, c01Backend{Name: name, Gen: next})
+				next++
+			case r.Chance(1, 2): // deleted
+				upd = append(upd[:idx], upd[idx+1:]...)
+			default: // replaced by a new handler object
+				upd[idx] = c01Backend{Name: name, Gen: next}
+				next++
+			}
+			cur = upd
+		}
+		out = append(out, append([]c01Backend{}, cur...))
+	}
+	return out
 }
 
 func TestVerifC01(t *testing.T) {
